@@ -279,7 +279,7 @@ pub fn inject_fault(rng: &mut Rng, g: &mut Generated) -> (&'static str, String) 
     let consts: Vec<String> = g.stmts.iter().filter_map(|s| if let Stmt::Const(n, _) = s { Some(n.clone()) } else { None }).collect();
     let at = rng.below(g.stmts.len() as u64 + 1) as usize;
     let one = GExpr::Const(1, W::Unl, 0);
-    match rng.below(14) {
+    match rng.below(17) {
         0 | 1 => {
             // drop the assignment of one name
             let victim = rng.pick(&assigned).clone();
@@ -372,6 +372,22 @@ pub fn inject_fault(rng: &mut Rng, g: &mut Generated) -> (&'static str, String) 
             if assigned.iter().any(|a| stmt.starts_with(a.as_str())) { g.stmts.insert(at, Stmt::Raw(String::new())); return ("none", "-".into()); }
             g.stmts.insert(at, Stmt::Raw(stmt.into()));
             ("partial", n.into())
+        }
+        14 => {
+            // two banks with the same input letter declare a register of the same name: its input wire exists twice
+            let w2 = *rng.pick(&[4u8, 8, 8, 16]);
+            g.stmts.insert(at, Stmt::Raw(format!("register zQ {{ k:8 = 0; }} register zR {{ k:{} = 0; }} z_k = 1;", w2)));
+            ("duplicate-bank-input", "z_k".into())
+        }
+        15 => {
+            // two banks with the same output letter: the output wire (and stall_/bubble_) exists twice
+            g.stmts.insert(at, Stmt::Raw(String::from("register yQ { k:8 = 0; } register zQ { k:8 = 0; } y_k = 1; z_k = 2;")));
+            ("duplicate-bank-output", "Q_k".into())
+        }
+        16 => {
+            // one bank declares a register twice
+            g.stmts.insert(at, Stmt::Raw(String::from("register zQ { k:8 = 0; k:8 = 1; } z_k = 1;")));
+            ("duplicate-register", "k".into())
         }
         _ => {
             // read an output of a component that has no inputs
